@@ -21,7 +21,7 @@ PROPERTY_MODULES = {
     "C02": ["core_gfi", "combinators", "lemmas", "pjax_vmap"],
     "C03": ["core_gfi", "combinators", "lemmas", "choicemap"],
     "C04": ["core_gfi", "combinators", "selection"],
-    "C05": ["core_gfi", "combinators", "lemmas", "mcmc", "extra"],
+    "C05": ["core_gfi", "combinators", "lemmas", "mcmc", "extra", "choicemap"],
 }
 
 A_REAL = "A-REAL: machine floats are treated as mathematical reals and ints as mathematical ints (no rounding, overflow, nan/inf)"
